@@ -57,6 +57,10 @@ class CellCredit(Monitor):
         self.part = ctx.algo.partition
 
     def on_pull(self, ctx, t, p):
+        if not isinstance(p, (list, tuple)):
+            self.cell = None  # no point handed out (cap used up): totality is C01's business, the run ends here
+            self.pre_state = None
+            return
         self.cell = ctx.hub.owner(p)
         if self.cell is None:
             self.v("C04:pulled_point_is_no_cell_representative", point=repr(p)[:80])
